@@ -311,3 +311,143 @@ Proof.
     + exact (Hdom _ _ _ _ _ Hne H1 H2).
 Qed.
 End Disjoint.
+
+Section DisjointRun.
+Variable reqauth : bool.
+Variable ops : list (op * list outcome).
+Hypothesis Hnostop : forall i os, ops !! i = Some os -> fst os <> OpStop.
+Hypothesis Hdisj : forall i j oi oj f, i <> j -> ops !! i = Some oi -> ops !! j = Some oj ->
+  opF (fst oi) f -> opF (fst oj) f -> False.
+Variable sched : list nat.
+Hypothesis Hdone : all_done (run sched (init reqauth ops)).
+
+Lemma CI_run : forall sch c, CI reqauth ops c -> CI reqauth ops (run sch c).
+Proof.
+  induction sch as [|j sch IH]; intros c H; cbn [run fold_left]; [exact H|].
+  apply IH. unfold step_or_stay. destruct (step c j) as [c1|] eqn:E; [|exact H].
+  eapply CI_step; eauto.
+Qed.
+
+Definition fin : state := run sched (init reqauth ops).
+
+(* each operation's result and calls in the concurrent run are those of [seq_op] on the fresh session *)
+Lemma conc_result : forall i os, ops !! i = Some os ->
+  exists th r, threads fin !! i = Some th /\ t_prog th = Ret r /\
+    snd (seq_op reqauth (base reqauth) (hop0 i os)) = Some (r, rev (t_calls th)).
+Proof.
+  intros i os Hi.
+  destruct (CI_run sched _ (CI_init reqauth ops Hnostop)) as [_ (Rs & reps & Hall & _)].
+  destruct (Hall _ _ Hi) as (Hreach & HS & th & th' & Hth & Hth' & HT).
+  fold fin in Hth. pose proof (Hdone _ _ Hth) as Hd. unfold is_done in Hd.
+  destruct (t_prog th) as [r| | | | | | | | | | | |] eqn:Hp; try discriminate.
+  exists th, r. split; [exact Hth|]. split; [exact Hp|].
+  pose proof (tr_prog _ _ _ _ HT) as HP. rewrite Hp in HP. apply prel_ret_r in HP.
+  assert (Hd0 : done0 (reps i)).
+  { exists th'. split; [rewrite Hth'; reflexivity | unfold is_done; rewrite HP; reflexivity]. }
+  destruct (seq_op_returns reqauth (base reqauth) (hop0 i os) eq_refl) as (r0 & cs0 & Hres & _).
+  unfold seq_op in *. fold (alone reqauth (base reqauth) (hop0 i os)) in *. cbn [fst snd] in *.
+  fold (solo0 reqauth i os) in *.
+  assert (Hdr : done0 (run_alone seq_fuel (solo0 reqauth i os) 0)).
+  { destruct (threads (run_alone seq_fuel (solo0 reqauth i os) 0) !! 0%nat) as [th2|] eqn:E2; [|discriminate].
+    exists th2. split; [exact E2|]. unfold result_of in Hres. unfold is_done.
+    destruct (t_prog th2); try discriminate. reflexivity. }
+  rewrite (run_alone_reach _ _ Hreach Hd0 _ Hdr). rewrite Hth'. cbn. unfold result_of. rewrite HP.
+  rewrite (tr_calls _ _ _ _ HT). reflexivity.
+Qed.
+
+Definition hist : list hop := history_of_run reqauth ops sched.
+
+Lemma hist_lookup : forall i a, hist !! i = Some a ->
+  exists os th r, ops !! i = Some os /\ threads fin !! i = Some th /\ t_prog th = Ret r /\
+    h_op a = fst os /\ h_script a = snd os /\ h_id a = N.of_nat i /\ h_res a = r /\ h_calls a = rev (t_calls th) /\
+    h_inv a = 2 * inv_time sched (init reqauth ops) i 0 /\ h_ret a = 2 * ret_time sched (init reqauth ops) i 0 + 1.
+Proof.
+  intros i a H. unfold hist, history_of_run in H. rewrite list_lookup_imap in H.
+  destruct (ops !! i) as [os|] eqn:Hi; cbn in H; [|discriminate]. injection H as <-.
+  destruct (conc_result _ _ Hi) as (th & r & Hth & Hp & _). fold fin.
+  exists os, th, r. cbn. rewrite Hth. unfold result_of. rewrite Hp. repeat split; reflexivity.
+Qed.
+
+(* the one-at-a-time run, in any order without repetition, from any session state that has none of the
+   remaining operations' fids bound *)
+Lemma chain : forall l, NoDup l ->
+  forall q hs,
+  (forall i os f, In i l -> ops !! i = Some os -> opF (fst os) f -> refs q !! f = None) ->
+  Forall2 (fun i a => hist !! i = Some a) l hs ->
+  seq_run reqauth q hs = map (fun h => Some (h_res h, h_calls h)) hs.
+Proof.
+  induction l as [|i l IH]; intros ND q hs Hq HF; inversion HF as [|i' a l' hs' Ha HF']; subst; [reflexivity|].
+  inversion ND as [|i' l' Hnin ND']; subst.
+  destruct (hist_lookup _ _ Ha) as (os & th & r & Hi & Hth & Hp & E1 & E2 & E3 & E4 & E5 & _).
+  cbn [seq_run map].
+  destruct (conc_result _ _ Hi) as (th0 & r0 & Hth0 & Hp0 & Hseq).
+  assert (th0 = th) by congruence. subst th0. assert (r0 = r) by congruence. subst r0.
+  (* lock step: a alone from q  ~  hop0 alone from the fresh session *)
+  assert (Hal : threads (alone reqauth q a) = [mk_thread reqauth (N.of_nat i) os]).
+  { unfold alone. cbn. rewrite E1, E2, E3. destruct os; reflexivity. }
+  assert (Hal' : threads (solo0 reqauth i os) = [mk_thread reqauth (N.of_nat i) os]).
+  { unfold solo0, alone, hop0. cbn. destruct os; reflexivity. }
+  assert (HS : srel (opF (fst os)) (fun _ _ => False) (alone reqauth q a) (solo0 reqauth i os)).
+  { constructor.
+    - intros f Hf. cbn. rewrite (Hq i os f (or_introl eq_refl) Hi Hf), lookup_empty. exact I.
+    - intros p p' [].
+    - intros p p' [].
+    - intros p p' [].
+    - intros x y x' y' []. }
+  assert (HT : trel (opF (fst os)) (fun _ _ => False) (mk_thread reqauth (N.of_nat i) os) (mk_thread reqauth (N.of_nat i) os)).
+  { constructor; try reflexivity. cbn. apply prel_prog_of. eapply Hnostop; exact Hi. }
+  destruct (run_alone_sim _ seq_fuel _ _ _ _ _ HS Hal Hal' HT) as (R2 & th2 & th2' & HS2 & Ht2 & Ht2' & HT2 & Hfr).
+  unfold seq_op in Hseq |- *. fold (alone reqauth (base reqauth) (hop0 i os)) in Hseq. fold (solo0 reqauth i os) in Hseq.
+  fold (alone reqauth q a). cbn [snd] in Hseq.
+  rewrite Ht2' in Hseq. cbn in Hseq. rewrite Ht2. cbn.
+  destruct (result_of th2') as [r2|] eqn:Er; [|discriminate]. injection Hseq as -> Hc.
+  unfold result_of in Er. destruct (t_prog th2') as [rr| | | | | | | | | | | |] eqn:Hp2; try discriminate. injection Er as ->.
+  pose proof (tr_prog _ _ _ _ HT2) as HP2. rewrite Hp2 in HP2. apply prel_ret_l in HP2.
+  unfold result_of. rewrite HP2. rewrite (tr_calls _ _ _ _ HT2), Hc, E4, E5. f_equal.
+  apply IH; [exact ND' | | exact HF'].
+  intros i2 os2 f Hin Hi2 Hf.
+  assert (Hne : i2 <> i) by (intros ->; exact (Hnin Hin)).
+  rewrite Hfr.
+  - cbn. apply (Hq i2 os2 f (or_intror Hin) Hi2 Hf).
+  - intro Hfi. exact (Hdisj _ _ _ _ _ Hne Hi2 Hi Hf Hfi).
+Qed.
+
+Definition rkey (i : nat) : N := ret_time sched (init reqauth ops) i 0.
+Definition lin_order : list nat := merge_sort (ordR rkey) (seq 0 (length ops)).
+
+Lemma hist_length : length hist = length ops.
+Proof. unfold hist, history_of_run. apply imap_length. Qed.
+
+Lemma disjoint_linearization : linearization reqauth hist lin_order.
+Proof.
+  assert (Hperm : Permutation lin_order (seq 0 (length ops))) by apply merge_sort_Permutation.
+  split; [rewrite hist_length; exact Hperm|].
+  assert (Hb : forall x, In x lin_order -> (x < length hist)%nat).
+  { intros x Hx. rewrite hist_length. eapply Permutation_in in Hx; [|exact Hperm]. apply in_seq in Hx. lia. }
+  exists (pick hist lin_order). split; [apply pick_total, Hb|]. split.
+  - intros i j a b Hij Hia Hjb.
+    pose proof (pick_total hist lin_order Hb) as HF.
+    destruct (Forall2_lookup_r _ _ _ _ _ HF Hia) as (x & Hx & Hxa).
+    destruct (Forall2_lookup_r _ _ _ _ _ HF Hjb) as (y & Hy & Hyb).
+    assert (Hs : StronglySorted (ordR rkey) lin_order) by (apply StronglySorted_merge_sort; apply _).
+    pose proof (StronglySorted_lookup _ _ _ _ _ _ Hs Hij Hx Hy) as Hxy. unfold ordR, rkey in Hxy.
+    destruct (hist_lookup _ _ Hxa) as (_ & _ & _ & _ & _ & _ & _ & _ & _ & _ & _ & Einv & _).
+    destruct (hist_lookup _ _ Hyb) as (_ & _ & _ & _ & _ & _ & _ & _ & _ & _ & _ & _ & Eret).
+    pose proof (inv_le_ret sched (init reqauth ops) x 0). lia.
+  - unfold reproduces. apply (chain lin_order).
+    + eapply Permutation_NoDup; [symmetry; exact Hperm | apply seq_NoDup].
+    + intros i os f _ _ _. unfold init. cbn. apply lookup_empty.
+    + apply pick_total, Hb.
+Qed.
+End DisjointRun.
+
+(* for ANY number of operations on pairwise disjoint fid sets, ANY schedule, ANY FileSys scripts: the completed
+   concurrent execution is linearizable, and the order of return is a linearization *)
+Theorem linearizable_disjoint : forall reqauth ops sched,
+  disjoint_fids (map fst ops) = true ->
+  all_done (run sched (init reqauth ops)) ->
+  exists o, linearization reqauth (history_of_run reqauth ops sched) o.
+Proof.
+  intros reqauth ops sched Hc Hd. destruct (disjoint_fids_spec ops Hc) as [H1 H2].
+  exists (lin_order reqauth ops sched). apply disjoint_linearization; assumption.
+Qed.
